@@ -1,5 +1,6 @@
 import Proofs.Small
 import Proofs.ForPrefixes
+import Proofs.MarksOps
 /-! C13 — hierarchy queries. Proved so far: the answers are duplicate-free sorted sets, never contain
     the queried webentity or "no webentity", and every member is the id of a cell met on the parent chain
     (resp. in the pruned DFS) of one of the given prefixes; an unknown prefix is refused with the
@@ -49,6 +50,30 @@ theorem C13_children_sound (s : State) (w : Nat) (ps : List Bytes) (l : List Nat
       refine ⟨p, hp, n, hn, ?_⟩
       simp only [List.mem_filter, List.mem_map, Bool.and_eq_true, bne_iff_ne, ne_eq, decide_eq_true_eq]
       exact ⟨⟨a, ha, rfl⟩, h0, hw⟩
+
+/-! #### the pruning never hides a child — for every reachable state -/
+
+/-- THE MARK INVARIANT is an invariant of every write request (including `clear`): in every state reached from
+    a fresh index by any history, a node still marked "no child webentities" has no webentity anywhere below
+    it — however the prefixes came to exist (explicit, automatic and rule-driven creation, additions, moves) -/
+theorem C13_mark_invariant (cfg : Config) (dflt : Rule) (rules : List (Bytes × Rule)) (ops : List Op) :
+    MInv ((State.fresh cfg dflt rules).1.run ops) := run_minv ops _ (minv_fresh cfg dflt rules [])
+
+/-- CHILDREN, EXACT: in every reachable state the answer of `get_webentity_child_webentities` is exactly the
+    set of ids other than `w` attached to a stored LRU extending one of the given prefixes, at any depth -/
+theorem C13_children (cfg : Config) (dflt : Rule) (rules : List (Bytes × Rule)) (ops : List Op)
+    (w : Nat) (ps : List Bytes) (hps : ∀ p ∈ ps, lruIter p ≠ []) (l : List Nat) :
+    let s := (State.fresh cfg dflt rules).1.run ops
+    s.childWebentities w ps = .ok l →
+    ∃ t, Shape s t ∧ ∀ x, x ∈ l ↔ x ≠ 0 ∧ x ≠ w ∧ ∃ p ∈ ps, ∃ q b, (q, b) ∈ t.entries s [] ∧
+      lruIter p <+: q ∧ (s.cell b).we = x := C13_reachable_api cfg dflt rules ops w ps hps l
+
+/-- the mechanism: `add_lru(…, flag_can_have_child_webentities=True)` unmarks every proper ancestor of the
+    path, existing or new — stated without any ghost state, through the look-up itself -/
+theorem C13_unmarks {s : State} {t : T} (h : Shape s t) (hm : MarkOk s t) (stems : LRU) (hne : stems ≠ []) :
+    ∀ k, 0 < k → k < stems.length → ∀ b, (s.addLru stems true).1.lruNode (stems.take k) = some b →
+      ((s.addLru stems true).1.cell b).flags.noChild = false :=
+  addLru_true_unmarks_lruNode h hm stems hne
 
 /-- answers are sets: strictly ascending, hence duplicate-free -/
 theorem C13_answers_are_sets (s : State) (w : Nat) (ps : List Bytes) (l : List Nat) :
